@@ -4,7 +4,7 @@ EXTENDS SpendTx, Json, SequencesExt
 AllCases == VCases \cup SCases \cup OCases
 ASSUME ndJsonSerialize("cases.ndjson", SetToSeq(AllCases))
 ASSUME LemmaDesignSound /\ LemmaDesignPick /\ LemmaHonestValid /\ LemmaHonestSub
-ASSUME LemmaTakerOutpoint /\ LemmaSuspectsAreDup /\ LemmaFeePositive /\ LemmaCsvExact /\ LemmaWitness
+ASSUME LemmaTakerOutpoint /\ LemmaNoSuspects /\ LemmaDupHandled /\ LemmaFeePositive /\ LemmaCsvExact /\ LemmaWitness
 \* design-level figures reported in the evidence
 ASSUME JsonSerialize("design.json",
          [shapes_btc |-> Cardinality(Shapes("btc")), shapes_lbtc |-> Cardinality(Shapes("lbtc")),
